@@ -25,6 +25,9 @@ FreshPool == <<"arg_0", "arg_1", "arg_2", "arg_3", "arg_4", "arg_5", "arg_6", "a
 Fresh(avoid) == FreshPool[CHOOSE i \in 1..Len(FreshPool) :
                               FreshPool[i] \notin avoid /\ \A j \in 1..(i - 1) : FreshPool[j] \in avoid]
 
+(* Python's equality of constant dictionary keys: True == 1, False == 0 *)
+KeyEq(k1, k2) == k1 = k2 \/ (k1.k \in {"int", "bool"} /\ k2.k \in {"int", "bool"} /\ k1.n = k2.n)
+
 (* capture-avoiding substitution: a binder that would capture a free name of r is renamed first *)
 RECURSIVE SubstCA(_, _, _)
 SubstCA(u, x, r) ==
@@ -128,10 +131,10 @@ RootRw(u) ==
           /\ PyIndex(Len(u.a[1].a), u.a[2].n) # 0
      THEN {u.a[1].a[PyIndex(Len(u.a[1].a), u.a[2].n)]} ELSE {}) \cup
     (IF u.k = "sub" /\ u.a[1].k = "dict" /\ u.a[2].k \in {"str", "int"}
-          /\ \E i \in 1..(Len(u.a[1].a) \div 2) : u.a[1].a[2 * i - 1] = u.a[2]
+          /\ \E i \in 1..(Len(u.a[1].a) \div 2) : KeyEq(u.a[1].a[2 * i - 1], u.a[2])
      \* (a key written more than once: the LAST value counts, as in Python)
-     THEN {u.a[1].a[2 * (CHOOSE i \in 1..(Len(u.a[1].a) \div 2) : u.a[1].a[2 * i - 1] = u.a[2] /\
-                           \A j \in (i + 1)..(Len(u.a[1].a) \div 2) : u.a[1].a[2 * j - 1] # u.a[2])]} ELSE {}) \cup
+     THEN {u.a[1].a[2 * (CHOOSE i \in 1..(Len(u.a[1].a) \div 2) : KeyEq(u.a[1].a[2 * i - 1], u.a[2]) /\
+                           \A j \in (i + 1)..(Len(u.a[1].a) \div 2) : ~KeyEq(u.a[1].a[2 * j - 1], u.a[2]))]} ELSE {}) \cup
     (IF u.k = "attr" /\ u.a[1].k = "dict"
           /\ \E i \in 1..(Len(u.a[1].a) \div 2) : u.a[1].a[2 * i - 1] = StrC(u.s)
      THEN {u.a[1].a[2 * (CHOOSE i \in 1..(Len(u.a[1].a) \div 2) : u.a[1].a[2 * i - 1] = StrC(u.s) /\
